@@ -22,6 +22,9 @@ VALUE_POOL = {
     "i1": 1, "fl": False, "f0": 0.0,
     # an aware datetime with a non-UTC offset: equal to its UTC rendering, yet a different observation (hour, offset, text)
     "dto": dt.datetime(2024, 3, 10, 1, 30, tzinfo=dt.timezone(dt.timedelta(hours=-5))),
+    # text outside ASCII, a lone surrogate (os.fsdecode of an undecodable name), numbers at the edges, empty containers inside
+    "uni": "r\u00e9sum\u00e9-\u65e5\u672c", "sur": "report-\udcff.csv", "big": 10 ** 30, "neg": -7, "fbig": 1.5e300,
+    "emp": {"a": [], "b": {}, "c": ()}, "b0": b"",
 }
 TOKENS = sorted(VALUE_POOL)
 
@@ -234,7 +237,22 @@ class Interp:
                         # a delay below one second is clamped to 1 s whatever its type: every other zero is a float
                         return WaitForConditionDecision.continue_waiting(Duration(seconds=0.5 if d == 0 and attempt % 2 else d))
 
-                    v = ctx.wait_for_condition(check, WaitForConditionConfig(wait_strategy=decide, initial_state=VALUE_POOL[st["init"]]), name=name)
+                    cser = None
+                    if st.get("cserdes"):
+                        # a user-supplied serializer with its own text format (oracle-only scenarios): every read and write
+                        # of the condition's state has to go through it
+                        from aws_durable_execution_sdk_python.serdes import ExtendedTypeSerDes, SerDes
+
+                        class Prefixed(SerDes):
+                            def serialize(self, value, c):
+                                return "X:" + ExtendedTypeSerDes().serialize(value, c)
+
+                            def deserialize(self, data, c):
+                                if not data.startswith("X:"):
+                                    raise ValueError("not written by this serializer")
+                                return ExtendedTypeSerDes().deserialize(data[2:], c)
+                        cser = Prefixed()
+                    v = ctx.wait_for_condition(check, WaitForConditionConfig(wait_strategy=decide, initial_state=VALUE_POOL[st["init"]], serdes=cser), name=name)
                     tok = token_of(v)
                 elif op == "child":
                     def body_fn(cctx, st=st, pos=pos, slots=slots):
